@@ -333,17 +333,20 @@ func runConcurrentListedAudit(h *Harness, j int) {
 		h.Violation(ownPrefix+"setup", "load-failed", "fault-free first load failed: %v", hs.Err)
 		return
 	}
-	for round := 0; round < 2; round++ {
-		loc.Cur = round + 1
-		// let the tick spawn its refresh, then start the handshakes
-		h.S.Run(func(v schedView) bool {
-			for _, t := range v.parked {
-				if t.kind == kStart && !t.client {
-					return true
+	// two rounds against a refresh cycle, then six bursts with no refresh beside them (lookups against lookups)
+	for round := 0; round < 8; round++ {
+		if round < 2 {
+			loc.Cur = round + 1
+			// let the tick spawn its refresh, then start the handshakes
+			h.S.Run(func(v schedView) bool {
+				for _, t := range v.parked {
+					if t.kind == kStart && !t.client {
+						return true
+					}
 				}
-			}
-			return false
-		}, h.S.Now()+11*time.Minute)
+				return false
+			}, h.S.Now()+11*time.Minute)
+		}
 		var calls []*HS
 		k := 3 + tp.Int(4)
 		for i := 0; i < k; i++ {
@@ -371,18 +374,20 @@ func runConcurrentListedAudit(h *Harness, j int) {
 		for i, c := range others {
 			h.R.Checks++
 			if isRevokedErr(c.Err) && ownsOracle("C11.revoked-unlisted") {
-				h.Violation("C11.revoked-unlisted", "concurrent-other-issuer:"+backend, "round %d: certificate %d of another issuer (no list of that issuer exists) carrying a serial that the loaded list of issuer A contains was reported REVOKED while %d handshakes for issuer A's certificates with that serial and a refresh cycle ran beside it (backend %s): %v", round+1, i+1, len(calls), backend, c.Err)
+				h.Violation("C11.revoked-unlisted", "concurrent-other-issuer:"+backend, "round %d: certificate %d of another issuer (no list of that issuer exists) carrying a serial that the loaded list of issuer A contains was reported REVOKED while %d handshakes for issuer A's certificates with that serial (rounds 1 and 2: and a refresh cycle) ran beside it (backend %s): %v", round+1, i+1, len(calls), backend, c.Err)
 				return
 			}
 		}
 		for i, c := range calls {
 			h.R.Checks++
 			if c.Err == nil && ownsOracle("C01.listed-accepted") {
-				h.Violation("C01.listed-accepted", "concurrent:"+backend, "round %d: handshake %d of %d concurrent handshakes for a serial that every version of the loaded list contains was ACCEPTED while a refresh cycle replaced v%d by v%d (strict=%v, backend %s)", round+1, i+1, len(calls), round+1, round+2, strict, backend)
+				h.Violation("C01.listed-accepted", "concurrent:"+backend, "round %d: handshake %d of %d concurrent handshakes for a serial that every version of the loaded list contains was ACCEPTED (rounds 1 and 2 run while a refresh cycle replaces the list, rounds 3-8 are bursts of lookups; strict=%v, backend %s)", round+1, i+1, len(calls), strict, backend)
 				return
 			}
 		}
-		h.Settle(40 * time.Second)
+		if round < 2 {
+			h.Settle(40 * time.Second)
+		}
 	}
 	h.R.Sample = map[string]any{"scenario": "concurrent-listed", "backend": backend, "strict": strict}
 	h.Cleanup(n)
